@@ -69,3 +69,28 @@ Example C17_example :
   to_kebab_case [109;97;120;95;100;101;112;116;104]%N = [109;97;120;45;100;101;112;116;104]%N /\
   pl_short (match derive_field (mkField (Some [118%N]) ShBool [] None false None) with Some p => p | None => mkPlan [] [] [] KSwitch [] None end) = [118%N].
 Proof. vm_compute. repeat split; reflexivity. Qed.
+
+(* The doc comment of an `options` / `command` type (Model/Derive.v doc_blocks / options_help: blocks cut at double
+   empty lines; description / header / footer): an explicit descr(..) / header(..) / footer(..) annotation overrides
+   EXACTLY the part it names -- that part becomes the annotation, every other part depends on the doc comment and its
+   own annotation only. *)
+Theorem C17_options_annotation_overrides_its_part :
+  forall doc d h f,
+    (forall x, d = Some x -> fst (fst (options_help doc d h f)) = Some x) /\
+    (forall x, h = Some x -> snd (fst (options_help doc d h f)) = Some x) /\
+    (forall x, f = Some x -> snd (options_help doc d h f) = Some x).
+Proof. exact options_help_explicit. Qed.
+Print Assumptions C17_options_annotation_overrides_its_part.
+
+Theorem C17_options_annotation_overrides_only_its_part :
+  forall doc d h f d' h' f',
+    fst (fst (options_help doc d h f)) = fst (fst (options_help doc d h' f')) /\
+    snd (fst (options_help doc d h f)) = snd (fst (options_help doc d' h f')) /\
+    snd (options_help doc d h f) = snd (options_help doc d' h' f).
+Proof. exact options_help_local. Qed.
+Print Assumptions C17_options_annotation_overrides_only_its_part.
+
+(* three blocks "a", "b\n\nc" (a single empty line stays inside a block), then an empty block and "d" *)
+Example C17_example_blocks :
+  doc_blocks [97;10;10;10;98;10;10;99;10;10;10;10;10;100]%N = [[97]; [98; 10; 10; 99]; []; [100]]%N.
+Proof. reflexivity. Qed.
